@@ -470,6 +470,15 @@ def run_roundtrip(ctx, gd):
         kw["tag"] = tag
     kernel.count("C16:roundtrip-options:" + ",".join(sorted(kw)) if kw else "C16:roundtrip-options:defaults")
     try:
+        if k % 4 == 2:
+            # the caller edits a first conversion result, then converts the same graph object again
+            first = g.to_latent_variable_dag(**kw)
+            from y0.dsl import Variable as _V
+
+            first.add_edge(_V("__junk"), next(iter(first.nodes()), _V("__junk2")))
+            for _n, _a in first.nodes(data=True):
+                _a[tag or "hidden"] = True
+            kernel.count("C16:asked-again-after-editing-the-first-answer")
         back = NxMixedGraph.from_latent_variable_dag(g.to_latent_variable_dag(**kw), **({"tag": tag} if tag else {}))
     except Exception as e:  # noqa: BLE001
         kernel.violation(PROP, "roundtrip", f"round trip raised {type(e).__name__}: {e} on {gd}", case={"graph": gd})
